@@ -19,6 +19,10 @@ pub fn common_prefix_char_size(left: &str, right: &str) -> u32 {
     let mut right_chars = right.chars();
     let mut was_escape = false;
     let mut group_level = 0;
+    // nesting level of character classes ([...]), where parentheses are literals
+    let mut class_level = 0;
+    // just after the opening of a class ("[" or "[^"), where a "]" is a literal
+    let mut class_start = false;
     let mut i = 0;
 
     loop {
@@ -29,10 +33,26 @@ pub fn common_prefix_char_size(left: &str, right: &str) -> u32 {
             return prefix_length;
         }
 
-        if left_char == '(' && !was_escape {
-            group_level += 1;
-        } else if left_char == ')' && !was_escape {
-            group_level -= 1;
+        if !was_escape && left_char != '\\' {
+            if class_level > 0 {
+                if left_char == '[' {
+                    class_level += 1;
+                    class_start = true;
+                } else if left_char == ']' && !class_start {
+                    class_level -= 1;
+                } else if !(left_char == '^' && class_start) {
+                    class_start = false;
+                }
+            } else if left_char == '[' {
+                class_level = 1;
+                class_start = true;
+            } else if left_char == '(' {
+                group_level += 1;
+            } else if left_char == ')' {
+                group_level -= 1;
+            }
+        } else if was_escape {
+            class_start = false;
         }
 
         if left_char == '\\' && !was_escape {
@@ -43,7 +63,7 @@ pub fn common_prefix_char_size(left: &str, right: &str) -> u32 {
 
         i += 1;
 
-        if group_level == 0 && !was_escape {
+        if group_level == 0 && class_level == 0 && !was_escape {
             prefix_length = i;
         }
     }
